@@ -1017,29 +1017,32 @@ def obligations(tier, seed):
     out = history_obligations(core, tier)
     out += _cap_sources(srv)
     b, viol, reach, bad = _service_branch(srv)
-    if bad or not all(reach.values()):
+    reach_l = R.live_reach(viol, reach, bad)
+    if bad or not all(reach_l):
         out.append(R.Result(engine="mirsym", name="branch:RpcService::call:subscriptions", kind="provenance", status="unsupported" if bad else "vacuous",
                             detail=str(bad[:1] or {k: len(v) for k, v in reach.items()})[:300], bodies=[b.name]))
     else:
         q = [v if isinstance(v, z3.ExprRef) else z3.BoolVal(bool(v)) for v in viol]
-        out.append(R.decide("branch:RpcService::call:subscriptions", "provenance", z3.Or(*q) if q else z3.BoolVal(False), [z3.Or(*v) for v in reach.values()], bodies=[b.name],
+        out.append(R.decide("branch:RpcService::call:subscriptions", "provenance", z3.Or(*q) if q else z3.BoolVal(False), [z3.Or(*v) for v in reach_l], bodies=[b.name],
                             desc="a subscription handler runs iff a permit was acquired, and receives that very permit under this connection's id; otherwise the call is answered "
                                  "-32006 with its own id and no handler runs; unsubscribe never touches the semaphore and is called with this connection's id",
                             bounds="callback kind Subscription / Unsubscription; acquire Some / None; configuration with and without subscriptions", keydetail="service-branch",
                             replay=dict(scenario="c06_history", vars={}, fixed={"cap": 1, "ops": [["sub", 0], ["sub", 0], ["unsub", 0, 0], ["finish", 0], ["sub", 0], ["unsub", 1, 1]]}, region=z3.BoolVal(True))))
     b, viol, reach, bad = _refusal_code(R.bodies("types"))
-    if bad or not reach:
+    reach_l = R.live_reach(viol, reach, bad)
+    if bad or not reach_l[0]:
         out.append(R.Result(engine="mirsym", name="kernel:reject_too_many_subscriptions", kind="kernel", status="unsupported", detail=str(bad[:1])[:300], bodies=[b.name]))
     else:
-        out.append(R.decide("kernel:reject_too_many_subscriptions:code", "kernel", z3.Or(*viol), [z3.Or(*reach)], bodies=[b.name],
+        out.append(R.decide("kernel:reject_too_many_subscriptions:code", "kernel", z3.Or(*viol), [z3.Or(*reach_l[0])], bodies=[b.name],
                             desc="the refusal error object carries code -32006 for every limit value", bounds="all u32 limits", keydetail="refusal-code",
                             replay=dict(scenario="c06_history", vars={}, fixed={"cap": 1, "ops": [["sub", 0], ["sub", 0]]}, region=z3.BoolVal(True))))
     b, viol, reach, bad = _subscribe_closure(core)
-    if bad or not reach:
+    reach_l = R.live_reach(viol, reach, bad)
+    if bad or not reach_l[0]:
         out.append(R.Result(engine="mirsym", name="prov:subscribe-callback:pending-sink", kind="provenance", status="unsupported" if bad else "vacuous", detail=str(bad[:1])[:300], bodies=[b.name]))
     else:
         q = [v if isinstance(v, z3.ExprRef) else z3.BoolVal(bool(v)) for v in viol]
-        out.append(R.decide("prov:subscribe-callback:pending-sink", "provenance", z3.Or(*q) if q else z3.BoolVal(False), [z3.Or(*reach)], bodies=[b.name],
+        out.append(R.decide("prov:subscribe-callback:pending-sink", "provenance", z3.Or(*q) if q else z3.BoolVal(False), [z3.Or(*reach_l[0])], bodies=[b.name],
                             desc="the pending sink handed to the user's handler holds: key (the caller's connection id, a fresh id from the id provider), the call's id, the connection's "
                                  "sink, the method's subscriber table (the one the unsubscribe callback uses) and the permit received with the call",
                             bounds="every path of the subscribe callback", keydetail="pending-sink-fields",
